@@ -90,7 +90,11 @@ func solveOne(res *FuncResult, ob *Obligation, cfg *SolverCfg, idx int) {
 		defer os.Remove(fz)
 		defer os.Remove(fc)
 	}
-	to := time.Duration(cfg.TimeoutS) * time.Second
+	toS := cfg.TimeoutS
+	if ob.Kind == "cover" && toS > 3 {
+		toS = 3
+	}
+	to := time.Duration(toS) * time.Second
 	ctx, cancel := context.WithCancel(context.Background())
 	defer cancel()
 	ch := make(chan solverOut, 3)
@@ -99,9 +103,9 @@ func solveOne(res *FuncResult, ob *Obligation, cfg *SolverCfg, idx int) {
 		args []string
 		file string
 	}{
-		{"z3-5.1.0", []string{"z3-new", fmt.Sprintf("-T:%d", cfg.TimeoutS), fmt.Sprintf("smt.random_seed=%d", cfg.Seed)}, fz},
-		{"z3-4.8.12", []string{"z3", fmt.Sprintf("-T:%d", cfg.TimeoutS), fmt.Sprintf("smt.random_seed=%d", cfg.Seed)}, fz},
-		{"cvc5-1.0", []string{"cvc5", fmt.Sprintf("--tlimit=%d", cfg.TimeoutS*1000), fmt.Sprintf("--seed=%d", cfg.Seed)}, fc},
+		{"z3-5.1.0", []string{"z3-new", fmt.Sprintf("-T:%d", toS), fmt.Sprintf("smt.random_seed=%d", cfg.Seed)}, fz},
+		{"z3-4.8.12", []string{"z3", fmt.Sprintf("-T:%d", toS), fmt.Sprintf("smt.random_seed=%d", cfg.Seed)}, fz},
+		{"cvc5-1.0", []string{"cvc5", fmt.Sprintf("--tlimit=%d", toS*1000), fmt.Sprintf("--seed=%d", cfg.Seed)}, fc},
 	}
 	for _, s := range solvers {
 		s := s
